@@ -203,6 +203,21 @@ func (n *vfNet) send(from int, raw []byte) {
 	ord := n.ord[from]
 	n.kindOrd[from][kind]++
 	kord := n.kindOrd[from][kind]
+	// RECONFIG packets are also counted by what they carry: only responses ("RECONFIG-RESP") or a request
+	kind2, kord2 := "", 0
+	if kind == "RECONFIG" {
+		kind2 = "RECONFIG-RESP"
+		pk := vfDecode(cp)
+		for i := range pk.Chunks {
+			for _, pr := range pk.Chunks[i].Params {
+				if _, isReq := vfParseResetReq(pr); isReq {
+					kind2 = "RECONFIG-REQ"
+				}
+			}
+		}
+		n.kindOrd[from][kind2]++
+		kord2 = n.kindOrd[from][kind2]
+	}
 	n.mu.Unlock()
 
 	n.record(&vfWireEv{Kind: vfWrWrite, Side: from, Raw: cp, Snap: snap, Ord: ord})
@@ -226,7 +241,7 @@ func (n *vfNet) send(from int, raw []byte) {
 		if f.Dir != from {
 			continue
 		}
-		match := (f.Kind == "any" && !f.Rel && f.Nth == ord) || (f.Kind == kind && f.Nth == kord) ||
+		match := (f.Kind == "any" && !f.Rel && f.Nth == ord) || (f.Kind == kind && f.Nth == kord) || (kind2 != "" && f.Kind == kind2 && f.Nth == kord2) ||
 			(f.Kind == "any" && f.Rel && n.relSet && f.Nth == ord-n.relBase[from])
 		if !match {
 			continue
